@@ -71,6 +71,8 @@ type c18Sup struct {
 	W    [][2]uint64 `json:"wires"`
 	C    [][2]uint64 `json:"consts"`
 	PI   [4]uint64   `json:"pi"`
+	// identifiers of other gates of the same circuit, resolved after this one and before it is used
+	Then []gateSpec `json:"resolved_afterwards,omitempty"`
 }
 
 func c18Supported(a c18Sup) caseResult {
@@ -90,6 +92,18 @@ func c18Supported(a c18Sup) caseResult {
 			first = g
 		} else if !reflect.DeepEqual(first, g) {
 			return caseResult{Viol: "unstable/" + a.Gate.Type, Desc: fmt.Sprintf("identifier %q resolved to different gates on different resolutions: %#v vs %#v", id, first, g)}
+		}
+	}
+	// a circuit description lists several gates: all are resolved before any is used, and resolving the later
+	// ones must leave the earlier gate what its identifier states
+	for _, o := range a.Then {
+		if _, refused := resolve(o.id()); refused != "" {
+			return caseResult{Viol: "supported-refused/" + o.Type, Desc: fmt.Sprintf("identifier %q of a supported gate refused when resolved after %q: %s", o.id(), id, refused)}
+		}
+	}
+	if len(a.Then) > 0 {
+		if again, refused := resolve(id); refused != "" || !reflect.DeepEqual(first, again) {
+			return caseResult{Viol: "changed-by-later-resolution/" + a.Gate.Type, Desc: fmt.Sprintf("the gate resolved from %q is no longer equal to a fresh resolution of the same identifier after %d other identifiers were resolved (%v): %#v vs %#v", id, len(a.Then), refused, first, again)}
 		}
 	}
 	// behaviour of the resolved gate on one random row equals the reference gate with the stated parameters
@@ -170,7 +184,7 @@ func TestC18(t *testing.T) {
 	compiledEvery = 0
 	r := s.r
 	defer r.Flush()
-	r.Rule("identifier strings generated from plonky2's Debug formats: (supported) the 14 implemented gate types with parameters over their ranges, each resolved 200 times (Go randomises map iteration per range loop): every resolution must return a gate whose Id() states exactly the identifier's parameters, all resolutions must be deeply equal, and the resolved gate's constraint values on a random row must equal the reference gate built from the stated parameters; (unsupported) LookupGate, LookupTableGate, U32ArithmeticGate, U32AddManyGate, U32SubtractionGate, ComparisonGate, U32RangeCheckGate, and RandomAccess/Exponentiation/CosetInterpolation gates over extension degree D != 2: every one of 200 resolutions must be refused; common circuit data with hiding enabled must be refused by the reader.  Non-trivial = every case; distinct = identifier.")
+	r.Rule("identifier strings generated from plonky2's Debug formats: (supported) the 14 implemented gate types with parameters over their ranges, each resolved 200 times (Go randomises map iteration per range loop): every resolution must return a gate whose Id() states exactly the identifier's parameters, all resolutions must be deeply equal, and the resolved gate's constraint values on a random row must equal the reference gate built from the stated parameters; (unsupported) LookupGate, LookupTableGate, U32ArithmeticGate, U32AddManyGate, U32SubtractionGate, ComparisonGate, U32RangeCheckGate, and RandomAccess/Exponentiation/CosetInterpolation gates over extension degree D != 2: every one of 200 resolutions must be refused; a third of the supported cases resolve 1..3 further identifiers (same type with other parameters, or another type) after the gate under test and before it is used - it must still equal a fresh resolution and behave as its identifier states; common circuit data with hiding enabled must be refused by the reader.  Non-trivial = every case; distinct = identifier.")
 	r.Assume("Debug formats of the unsupported gates are written from the plonky2 / plonky2-u32 sources as remembered (no Rust toolchain crates offline)")
 	s.on("supported", func(b json.RawMessage) caseResult { return c18Supported(unmarshal[c18Sup](b)) })
 	s.on("unsupported", func(b json.RawMessage) caseResult { return c18Unsupported(unmarshal[string](b)) })
@@ -214,7 +228,7 @@ func TestC18(t *testing.T) {
 			rapidOnce(t, "real/"+id, func(rt *rapid.T) {
 				w, c, pi := genRowRandom(rt, gateRowWires, gateRowConsts)
 				g := specFromId(id)
-				s.exec(rt, "supported", c18Sup{g, w, c, pi}, "supported/real-circuit/"+g.Type)
+				s.exec(rt, "supported", c18Sup{Gate: g, W: w, C: c, PI: pi}, "supported/real-circuit/"+g.Type)
 			})
 		}
 	}
@@ -225,7 +239,18 @@ func TestC18(t *testing.T) {
 		}
 		g := genGateSpec(typ).Draw(rt, "gate")
 		w, c, pi := genRowRandom(rt, gateRowWires, gateRowConsts)
-		s.exec(rt, "supported", c18Sup{g, w, c, pi}, "supported/"+typ)
+		a, class := c18Sup{Gate: g, W: w, C: c, PI: pi}, "supported/"+typ
+		if rapid.IntRange(0, 2).Draw(rt, "others") == 0 {
+			for i := rapid.IntRange(1, 3).Draw(rt, "n_others"); i > 0; i-- {
+				t2 := typ // the same type with other parameters is the interesting neighbour
+				if rapid.Bool().Draw(rt, "other_type") {
+					t2 = rapid.SampledFrom(gateTypes).Draw(rt, "type_other")
+				}
+				a.Then = append(a.Then, genGateSpec(t2).Draw(rt, "other"))
+			}
+			class = "supported-then-others/" + typ
+		}
+		s.exec(rt, "supported", a, class)
 	})
 	rapidCheck(t, "unsupported", tierN(3000, 20000), func(rt *rapid.T) {
 		id := genUnsupportedId().Draw(rt, "id")
